@@ -13,10 +13,30 @@ from gen import distances_gen as G
 CORPUS = os.path.join(C.VERIF, "corpus", "c13")
 
 
+WHITEBOX = {"ok": True, "error": ""}
+
+
 def _tools():
-    exe = C.build_harness("hwv_distances", ["hwv_distances.c"])
+    """The harness is first built with its white-box part (current distances.c
+    compiled into it, static functions called directly); if that does not
+    compile any more the black-box build (public API only) is used and the
+    direct-call correspondence is reported as broken by check()."""
+    try:
+        exe = C.build_harness("hwv_distances", ["hwv_distances.c"], extra_flags=["-DHWV_WHITEBOX"])
+        WHITEBOX["ok"] = True
+    except RuntimeError as e:
+        WHITEBOX["ok"], WHITEBOX["error"] = False, str(e)[-3000:]
+        exe = C.build_harness("hwv_distances_bb", ["hwv_distances.c"])
     drv = C.extract("C13", "drv_c13.ml")
     return exe, drv
+
+
+def _norm_model(m_out):
+    """black-box harness cannot print the container id of a returned structure"""
+    if WHITEBOX["ok"]:
+        return m_out
+    import re as _re
+    return _re.sub(r"(?m)^(H \d+) id=\d+", r"\1 id=?", m_out)
 
 
 def prebuild():
@@ -28,7 +48,7 @@ def run_script(exe, drv, lines, timeout=120):
     rc1, out_c, err_c = C.sh([exe], input=inp, env=C.run_env(), timeout=timeout)
     c_out = out_c.decode(errors="replace")
     rc2, out_m, err_m = C.sh([drv], input=G.model_input(c_out).encode(), timeout=timeout)
-    return rc1, c_out, err_c.decode(errors="replace"), rc2, out_m.decode(errors="replace"), err_m.decode(errors="replace")
+    return rc1, c_out, err_c.decode(errors="replace"), rc2, _norm_model(out_m.decode(errors="replace")), err_m.decode(errors="replace")
 
 
 def first_diff(a, b):
@@ -152,15 +172,23 @@ def check(run, replay=None):
         cases += load_corpus()
         for i, ls in enumerate(G.boundary_cases(rng, k)):
             cases.append(("boundary%d" % i, ls))
+        for i in range(60 if run.tier == "quick" else 1500):
+            cases.append(("follow%d" % i, G.gen_follow_case(rng, k)))
         nrand = 260 if run.tier == "quick" else 4000
         for i in range(nrand):
             cases.append(("rand%d" % i, G.gen_case(rng, k, i)))
-        raw = G.raw_cases(rng, 150 if run.tier == "quick" else 3000)
-        for i in range(0, len(raw), 25):
-            cases.append(("raw%d" % (i // 25), raw[i:i + 25]))
-        grp = G.group_cases(rng, 200 if run.tier == "quick" else 4000)
-        for i in range(0, len(grp), 25):
-            cases.append(("groups%d" % (i // 25), grp[i:i + 25]))
+        if WHITEBOX["ok"]:
+            raw = G.raw_cases(rng, 150 if run.tier == "quick" else 3000)
+            for i in range(0, len(raw), 25):
+                cases.append(("raw%d" % (i // 25), raw[i:i + 25]))
+            grp = G.group_cases(rng, 200 if run.tier == "quick" else 4000)
+            for i in range(0, len(grp), 25):
+                cases.append(("groups%d" % (i // 25), grp[i:i + 25]))
+    if not WHITEBOX["ok"]:
+        run.violation("correspondence:whitebox-build",
+                      "harness/hwv_distances.c no longer compiles with the current hwloc/distances.c compiled into it (a static function it calls directly changed): the direct-call correspondence of hwloc_internal_distances_restrict / hwloc__find_groups_by_min_distance / hwloc__check_grouping_matrix is broken; the public-API histories below were still run with the black-box build",
+                      "kind: correspondence\ncase: white-box build of harness/hwv_distances.c\n" + WHITEBOX["error"], no_input=True)
+        run.cov["whitebox"] = False
 
     # one process pair per batch of cases
     B = 80
